@@ -13,4 +13,5 @@ def add_obligations(pack, tier):
     from contracts import fn_pu
     pack.assume('per-unit conversion of the input data (System.calc_pu_coeff, NumParam.set_pu_coeff) is part of C01 with the '
                 'textbook ratios stated in C11; verified pointwise for one arbitrary device of one arbitrary model')
-    run_contracts(pack, [(fn_pu.calc_pu_coeff('C01'),), (fn_pu.set_pu_coeff('C01'),)])
+    from contracts import fn_decl as D
+    run_contracts(pack, [(fn_pu.calc_pu_coeff('C01'),), (fn_pu.set_pu_coeff('C01'),), (D.declaration('C01', *D.LINE),)])
